@@ -21,6 +21,11 @@ RULE = ("random LP-expressible CQMs: 0-14 BINARY/INTEGER/REAL variables with exp
         "1.8e308), compared exactly; every round trip additionally feeds the CHARACTERS of the dumped text to the Coq model of the reader's "
         "tokenizer and keyword stage (Model/LPLex.v: readnexttoken + processtokens with the generated tables, strtod span, exact decimal "
         "value of numerals) in front of the reference parser and compares with what the C++ reader built (KTripFull). "
+        "Round 5: INTEGER variables with non-integral bounds (1/2..7/2, -5/2..-1/2, one-sided), compared exactly; near-keyword labels "
+        "(every reader keyword with '.', '..', ',', '?', '_', quote, ';', 's' appended or a '.' inserted/moved, any case) as variable and "
+        "constraint labels - a label outside the worker's PINNED copy of the reader's keywords that does not come back is a failure whatever "
+        "the generated tables say; refused labels with whitespace / control characters (newline, CR, tab, blank, VT, FF, NUL, US, DEL, NEL, "
+        "NBSP, LS, PS) trailing, leading, embedded or alone. "
         "non-trivial = model has a term or a constraint; distinct by case JSON")
 TRUSTED = ["generated: coq/theories/Gen/Gen_LP.v by translators/lp_grammar.py (LABEL_VALID_CHARS, LABEL_INVALID_FIRST_CHARS, label length, "
            "TARGET_LINE_LEN and break string of lp.py; sectionkeywordmap, single-character tokens, line-discarding characters, identifier "
@@ -37,7 +42,10 @@ TRUSTED = ["generated: coq/theories/Gen/Gen_LP.v by translators/lp_grammar.py (L
            "are looked up in a table of Python float() values (strtod's rounding is not modelled), all others are evaluated in Coq",
            "the older word-level comparison is kept: the worker classifies the whitespace-separated words of the text into tokens "
            "(section lines in column 0, label tables of the model, Python float() for numerals)",
-           "Python repr / C strtod agree on the printed dyadic numbers (oracle)"]
+           "Python repr / C strtod agree on the printed dyadic numbers (oracle)",
+           "pinned: the reader's keyword / delimiter tables as reviewed (Proofs/LPLexFacts.v PINNED_SECTION_WORDS, theorem "
+           "C12_reader_tables_are_the_pinned_ones; worker-side KEYWORDS / TWO_WORD): a change of the tables in reader.cpp / def.hpp "
+           "breaks the theorem even though model and implementation move together"]
 ASSUMPTIONS = ["coefficients are dyadic and exactly printed by repr and re-read by strtod",
                "the C++ reader agrees with the verified reference parser on the writer's grammar (checked on every generated text, not proved)"]
 PARTIAL = ["the round trip is now proved from the CHARACTERS within the model (C12_lp_chars_roundtrip: writer conventions, words + any line "
